@@ -8,6 +8,7 @@ CONSTANTS
   Tolerated <- KnownRecovery
   FnOut = FALSE
   Poller = FALSE
+  Aging = FALSE
   Gen = "off"
 PROPERTIES Terminates
 CHECK_DEADLOCK TRUE
